@@ -2,6 +2,7 @@ import UF.Proofs.Shortcut
 import UF.Proofs.ShortcutRuns
 import UF.Proofs.RegexFast
 import UF.Model.RegexParse
+import UF.Proofs.RegexCiPrefix
 /-
   C05 — the shortcut pre-check never rejects a request the rule accepts.
   Property theorems only (helper lemmas live in UF/Proofs/Regex.lean, Shortcut.lean, ShortcutBytes.lean).
@@ -124,13 +125,13 @@ theorem c05_regex_rule (ext : Ext) (r : NetRule) (q : Request) (parts : List Byt
   · exact hasSub_refl _
 
 /-- The same inside the model: the pattern oracle is the regex model `regexPat` (`parseRE` + `search`)
-    and the tree is the model's parse of the text between the slashes. (`$match-case` rules whose text
-    itself starts with `(?i)` are excluded: their shortcut is empty anyway, the text contains `?`.) -/
+    and the tree is the model's parse of the text between the slashes.  (`$match-case` rules whose text
+    itself starts with `(?i)` need no special hypothesis: `parseCore` has no flag groups, so the tree is
+    `none`, nothing is required and the shortcut is empty -- `parseCore_of_hasPrefix_ci`; in Go the text
+    heuristics bail out on the `?`.) -/
 theorem c05_regex_model (ext : Ext) (r : NetRule) (q : Request) (parts : List Bytes)
     (hext : ∀ p mc t, ext.pat p mc t = (regexPat p mc t).getD false)
     (hshort : r.shortcut = loadShortcut (findRegexpShortcut parts (parseCore ((r.pattern.drop 1).dropLast))))
-    (hci : r.isEnabled Facts.OptionMatchCase = true →
-      hasPrefix ((r.pattern.drop 1).dropLast) ciPrefix = false)
     (hlower : q.urlLower = toLower q.url)
     (hhost : q.isHostnameRequest = true → hasSub q.url q.hostname = true) :
     r.matches ext q = ({ r with shortcut := [] } : NetRule).matches ext q := by
@@ -138,7 +139,7 @@ theorem c05_regex_model (ext : Ext) (r : NetRule) (q : Request) (parts : List By
   intro target ht
   rw [hext] at ht
   unfold regexPat regexRuleText at ht
-  generalize (r.pattern.drop 1).dropLast = inner at ht hci ⊢
+  generalize (r.pattern.drop 1).dropLast = inner at ht ⊢
   split at ht
   · simp at ht
   · cases hmc : r.isEnabled Facts.OptionMatchCase with
@@ -153,13 +154,25 @@ theorem c05_regex_model (ext : Ext) (r : NetRule) (q : Request) (parts : List By
         intro t' ht'; cases ht'; exact litsCovered_foldCase t
     | true =>
       rw [hmc] at ht
-      simp only [if_true, parseRE, hci hmc, Bool.false_eq_true, if_false] at ht
-      cases hp : parseCore inner with
-      | none => rw [hp] at ht; simp at ht
-      | some t =>
-        rw [hp] at ht
-        refine ⟨t, ?_, by simpa [searchFast_eq] using ht⟩
-        intro t' ht'; cases ht'; exact litsCovered_refl t
+      simp only [if_true] at ht
+      cases hci : hasPrefix inner ciPrefix with
+      | true =>
+        -- the text itself starts with `(?i)`: the tree is `none`, nothing has to be covered
+        have hnone := parseCore_of_hasPrefix_ci hci
+        cases hp : parseRE inner with
+        | none => rw [hp] at ht; simp at ht
+        | some c =>
+          rw [hp] at ht
+          refine ⟨c, ?_, by simpa [searchFast_eq] using ht⟩
+          intro t' ht'; rw [hnone] at ht'; cases ht'
+      | false =>
+        simp only [parseRE, hci, Bool.false_eq_true, if_false] at ht
+        cases hp : parseCore inner with
+        | none => rw [hp] at ht; simp at ht
+        | some t =>
+          rw [hp] at ht
+          refine ⟨t, ?_, by simpa [searchFast_eq] using ht⟩
+          intro t' ht'; cases ht'; exact litsCovered_refl t
 
 /-- Mask rules, part 1: the `IndexAny` loop of `findShortcut` never panics (its slice expressions are
     checked in the model) … -/
